@@ -539,6 +539,16 @@ fn c18_build(ctx: &Ctx, tier: Tier, seed: u64) -> Vec<Job<'static>> {
             gen::add_file_put(&mut sc, &mut rng, &k, 0, 1, 0);
             let prof = estimate_profile(&sc);
             sc.script = gen::wild_script(&mut rng, &sc, &prof, 0, 1);
+            // user operations that must not make an unacknowledged receiver talk back
+            if rng.chance(1, 4) {
+                let ent = rng.usize_below(2);
+                let at = Trigger::AfterPdu { src: 0, dst: 1, n: rng.below(prof.fwd.len() as u64 + 1) as u32 };
+                sc.script.push(Entry::User { ent, op: UserOp::Suspend, put: 0, at: at.clone() });
+                sc.script.push(Entry::User { ent, op: UserOp::Resume, put: 0, at: Trigger::Plus(Box::new(at), *rng.pick(&[0u64, 1000, 100_000, 1_500_000])) });
+            }
+            if rng.chance(1, 8) {
+                sc.script.push(Entry::User { ent: 0, op: *rng.pick(&[UserOp::PromptNak, UserOp::PromptKa]), put: 0, at: Trigger::AfterPdu { src: 0, dst: 1, n: rng.below(prof.fwd.len() as u64 + 1) as u32 } });
+            }
             sc
         }),
     };
@@ -620,6 +630,7 @@ pub fn registry(prop: &str) -> Option<Check> {
         "C08" => crate::props::c08::check(),
         "C10" => crate::props::c10::check(),
         "C12" => crate::props::c12::check(),
+        "C17" => crate::props::c17::check(),
         "C19" => crate::props::c19::check(),
         "C20" => crate::props::c20::check(),
         _ => return None,
